@@ -1,5 +1,6 @@
 import PagexmlModel.Drv.Util
 import PagexmlModel.Model.C02
+import PagexmlModel.Model.C02Hist
 open Lean
 
 namespace Pagexml.Drv.C02
@@ -114,6 +115,54 @@ def runDump (σ : Store) : List Op → List Json → List Json × Store
     | .ok (σ', o) => runDump σ' ops (jObj [("out", jOut o), ("pre", jBool (Pre σ op)), ("store", jStore σ')] :: acc)
     | .error e => ((jObj [("err", jStr e.name)] :: acc).reverse, σ)
 
+def decCls (s : String) : Dec Cls :=
+  match s with
+  | "word" => .ok .word | "line" => .ok .line | "region" => .ok .region | "column" => .ok .column
+  | "page" => .ok .page | "scan" => .ok .scan | "cell" => .ok .cell | "row" => .ok .row | "table" => .ok .table
+  | c => .error s!"unknown class {c}"
+
+def boolF (j : Json) (k : String) : Dec Bool :=
+  match fieldOpt j k with
+  | some v => asBool v
+  | none => pure false
+
+def strsF (j : Json) (k : String) : Dec (List String) :=
+  match fieldOpt j k with
+  | some v => asList asStr v
+  | none => pure []
+
+/-- {"kind": …, "extra": bool, "a": args, "kids": [tree…]} -/
+partial def decJTree (j : Json) : Dec JTree := do
+  let kids ← match fieldOpt j "kids" with
+    | some v => asList decJTree v
+    | none => pure []
+  return .node (← decCls (← strF j "kind")) (← boolF j "extra") (← argsF j) kids
+
+/-- {"a": args, "add_type": [tag?], "lines_first": bool, "lines": [tree…], "regions": [region…]} -/
+partial def decPRegion (j : Json) : Dec PRegion := do
+  let lines ← match fieldOpt j "lines" with
+    | some v => asList decJTree v
+    | none => pure []
+  let regions ← match fieldOpt j "regions" with
+    | some v => asList decPRegion v
+    | none => pure []
+  return .mk (← argsF j) (← strsF j "add_type") (← boolF j "lines_first") lines regions
+
+def decPTable (j : Json) : Dec PTable := do
+  let rows ← match fieldOpt j "rows" with
+    | some v => asList decJTree v
+    | none => pure []
+  return { a := ← argsF j, addT := ← strsF j "add_type", rows := rows }
+
+def decPScan (j : Json) : Dec PScan := do
+  let regions ← match fieldOpt j "regions" with
+    | some v => asList decPRegion v
+    | none => pure []
+  let tables ← match fieldOpt j "tables" with
+    | some v => asList decPTable v
+    | none => pure []
+  return { a := ← argsF j, regions := regions, tables := tables, file := ← strF j "file" }
+
 def handle (op : String) (args : Json) : Dec Json := do
   match op with
   | "history" =>
@@ -125,6 +174,28 @@ def handle (op : String) (args : Json) : Dec Json := do
     match run Store.empty ops, runPre Store.empty ops with
     | .ok σ, pre => return jObj [("ok", jStore σ), ("pre", jBool pre)]
     | .error e, _ => return jObj [("err", jStr e.name)]
+  | "tree" =>
+    -- the history DEFINED IN THE MODEL (Model/C02Hist.lean) for a document tree, run after `ops`:
+    -- mode "parse" (PScan.hist), "json" (JTree.hist true), "bottom" (JTree.hist false)
+    let ops ← asList decOp (← field args "ops")
+    match run Store.empty ops with
+    | .error e => return jObj [("err", jStr e.name)]
+    | .ok σ₀ =>
+      let mode ← strF args "mode"
+      let (hist, root, valid) ← match mode with
+        | "parse" => do
+          let s ← decPScan (← field args "tree")
+          pure ((s.hist σ₀.size).1, (s.hist σ₀.size).2, s.valid)
+        | "json" => do
+          let t ← decJTree (← field args "tree")
+          pure ((t.hist true σ₀.size).1, (t.hist true σ₀.size).2, t.valid)
+        | _ => do
+          let t ← decJTree (← field args "tree")
+          pure ((t.hist false σ₀.size).1, (t.hist false σ₀.size).2, t.valid)
+      match run σ₀ hist, runPre σ₀ hist with
+      | .ok σ, pre => return jObj [("ok", jStore σ), ("pre", jBool (pre && runPre Store.empty ops)),
+                                   ("root", jNat root), ("valid", jBool valid), ("n_ops", jNat hist.length)]
+      | .error e, _ => return jObj [("err", jStr e.name)]
   | _ => .error s!"unknown op {op}"
 
 end Pagexml.Drv.C02
